@@ -53,7 +53,37 @@ func c09Inputs() (map[string]interface{}, []ucfg.Option) {
 	x := verif.Uint64("x")
 	y := verif.Uint64("y")
 	sep := []ucfg.Option{ucfg.PathSep(".")}
-	switch verif.Choice("input", 10) {
+	switch verif.Choice("input", 12) {
+	case 10:
+		// a name and its index 0 / its sub-key, each nil, a number or an object
+		val := func(name string) interface{} {
+			switch verif.Choice(name, 3) {
+			case 0:
+				return nil
+			case 1:
+				return x
+			}
+			return map[string]interface{}{"k": y}
+		}
+		return map[string]interface{}{"a": val("a"), "a.0": val("a.0"), "b": val("b"), "b.k": val("b.k")}, sep
+	case 11:
+		// several faulty entries with different kinds of error
+		in := map[string]interface{}{"ok": x}
+		if verif.Choice("fault.dup", 2) == 1 {
+			in["a"] = x
+			in["a.b"] = y
+		}
+		if verif.Choice("fault.type", 2) == 1 {
+			in["c"] = make(chan int)
+		}
+		if verif.Choice("fault.key", 2) == 1 {
+			in["d"] = map[int]interface{}{1: x}
+		}
+		if verif.Choice("fault.neg", 2) == 1 {
+			in["e.f"] = x
+			in["e"] = []interface{}{y}
+		}
+		return in, sep
 	case 9:
 		// one object spelled up to three times (nested, "a.b", "a.b.x"), every spelling one of
 		// several shapes: more than one conflict, of different kinds, may sit below the same object
@@ -106,8 +136,32 @@ func c09Inputs() (map[string]interface{}, []ucfg.Option) {
 }
 
 // H_C09_newfrom: creating a config from inputs whose keys overlap after dotted expansion.
+// ifaceKeyed converts the generic maps of an input into map[interface{}]interface{} (what the YAML
+// decoder produces).
+func ifaceKeyed(v interface{}) interface{} {
+	switch w := v.(type) {
+	case map[string]interface{}:
+		m := map[interface{}]interface{}{}
+		for k, e := range w {
+			m[k] = ifaceKeyed(e)
+		}
+		return m
+	case []interface{}:
+		l := make([]interface{}, len(w))
+		for i, e := range w {
+			l[i] = ifaceKeyed(e)
+		}
+		return l
+	}
+	return v
+}
+
 func H_C09_newfrom() {
-	in, opts := c09Inputs()
+	sin, opts := c09Inputs()
+	var in interface{} = sin
+	if verif.Choice("interface-keyed maps", 2) == 1 {
+		in = ifaceKeyed(sin)
+	}
 	run := func() outcome {
 		c, err := ucfg.NewFrom(in, opts...)
 		if err != nil {
